@@ -36,7 +36,7 @@ func init() {
 			"confidential side: the xcrypto model is faithful (validated against C++ vectors by sim/xcryptotest); its randomness is the tape",
 			"LKC confidential transactions only (token UTXO needs a token contract answering the change-rate call)",
 		},
-		QuickRuns: 1280, QuickBudget: 70 * time.Second, ThoroughRuns: 30000, ThoroughBudget: 18 * time.Minute,
+		QuickRuns: 1024, QuickBudget: 70 * time.Second, ThoroughRuns: 30000, ThoroughBudget: 18 * time.Minute,
 		RunsPerProcess: 40, RunTimeout: 150 * time.Second, MaxProcs: 1,
 		Run: run,
 	})
